@@ -43,9 +43,12 @@ fn new_ctx(profile: &str, property: &str, swarm: Swarm, tier: Tier, crash: Optio
         images_verified: 0,
         max_images_per_step: if tier == Tier::Thorough { 120 } else { 48 },
         max_images_per_run: if tier == Tier::Thorough { 2500 } else { 700 },
+        image_cost: 0,
+        max_image_cost_per_run: if tier == Tier::Thorough { 12_000 } else { 3_500 },
         stop: false,
         fault_armed: false,
         kinds: vec![],
+        seen_sigs: Default::default(),
     }
 }
 
